@@ -187,12 +187,43 @@ unifex::task<vf::val> run_plan(int pid) {
   co_return vf::val{pl.ret};
 }
 
+// task<> handle ownership: a task that is overwritten by move-assignment, moved from, or dropped without ever being
+// awaited owns a suspended frame that must be destroyed exactly once (the frame's by-value parameter is the witness)
+struct frame_witness {
+  static int& live() {
+    static int n = 0;
+    return n;
+  }
+  frame_witness() { ++live(); }
+  frame_witness(const frame_witness&) { ++live(); }
+  ~frame_witness() { --live(); }
+};
+unifex::task<void> witness_task(frame_witness) {
+  co_return;
+}
+void handle_ownership_probe() {
+  int before = frame_witness::live();
+  {
+    auto t = witness_task(frame_witness{});
+    for (int i = 0; i < 3; ++i)
+      t = witness_task(frame_witness{});  // overwrite an unstarted task
+    unifex::task<void> u = std::move(t);  // move construction
+    t = witness_task(frame_witness{});    // assign onto a moved-from task
+    u = std::move(t);                     // overwrite an unstarted task with another live one
+  }
+  if (frame_witness::live() != before)
+    vf::viol("task-frame-not-destroyed-exactly-once n=%d frames alive after unstarted tasks were overwritten/dropped",
+             frame_witness::live() - before);
+}
+
 template <int Tok>
 void run() {
   auto it = vf::G.scn.kv.find("plan");
   parse_plans(it == vf::G.scn.kv.end() ? std::string("1|") : it->second);
   g_inst = 0;
   vf::run_program<Tok, false>([] { return run_plan(0); });
+  if (vf::G.scn.throw_at == 0)
+    handle_ownership_probe();
 }
 
 vf::registrar r0{0, &run<vf::TOK_COUNTING>};
